@@ -69,6 +69,27 @@ Lemma note_all_frame : forall l s,
   clear_acc (note_all s l) = clear_acc s.
 Proof. induction l as [|t r IH]; intros s; simpl; [auto|]. destruct (IH (mkst (cn s) (recv_seq s) (note_sent (strict (cn s)) (send_seq s) t) (last_recv s) t (clear_acc s))) as (A & B & C & D). simpl in *. auto. Qed.
 
+(* what answering a suspended credential callback can do to the connection *)
+Definition release_conn (c : conn) (v : Z) : conn :=
+  if v =? 0 then try_next_auth (set_waiting false c) true
+  else set_req_issued true (send_packet (set_waiting false c) 50 0).
+
+Lemma step_release fixed fixk s v :
+  step_g fixed fixk s (EvRelease v) =
+  if closed (cn s) || negb (waiting (cn s)) || (auth (cn s) =? 0) then s else with_conn s (release_conn (cn s) v).
+Proof. unfold release_conn. cbn [step_g]. destruct (closed (cn s) || negb (waiting (cn s)) || (auth (cn s) =? 0)); [reflexivity|]. destruct (v =? 0); reflexivity. Qed.
+
+Lemma release_strict c v : strict (release_conn c v) = strict c.
+Proof. unfold release_conn. destruct (v =? 0); frame. Qed.
+Lemma release_recv_enc c v : recv_enc (release_conn c v) = recv_enc c.
+Proof. unfold release_conn. destruct (v =? 0); frame. Qed.
+Lemma release_unsolicited c v : unsolicited (release_conn c v) = unsolicited c.
+Proof. unfold release_conn. destruct (v =? 0); frame. Qed.
+Lemma release_sid c v : sid (release_conn c v) = sid c.
+Proof. unfold release_conn. destruct (v =? 0); frame. Qed.
+Lemma release_next_recv c v : next_recv (release_conn c v) = next_recv c.
+Proof. unfold release_conn. destruct (v =? 0); frame. Qed.
+
 Definition inv_rseq (s : st) : Prop :=
   last_recv s = 21 -> strict (cn s) = true -> closed (cn s) = false -> recv_seq s = 0.
 
@@ -77,7 +98,7 @@ Proof. destruct n; intros c H; simpl; [reflexivity|]. rewrite H. reflexivity. Qe
 
 Lemma step_inv_rseq0 fixed fixk s e : inv_rseq s -> inv_rseq (step_g fixed fixk s e).
 Proof.
-  intros H. destruct e as [|t cls|]; cbn [step_g].
+  intros H. destruct e as [|t cls| |v]; [cbn [step_g] | cbn [step_g] | cbn [step_g] | ].
   - destruct (closed (cn s)) eqn:Ec; [exact H|]. exact H.
   - unfold recv_g.
     destruct (closed (cn s)) eqn:Ec; [exact H|].
@@ -94,6 +115,10 @@ Proof.
     destruct (closed (cn s)) eqn:Ec.
     + rewrite run_tasks_closed_id in Hc by exact Ec. congruence.
     + apply H; auto.
+  - rewrite step_release.
+    destruct (closed (cn s) || negb (waiting (cn s)) || (auth (cn s) =? 0)) eqn:Eg; [exact H|].
+    unfold inv_rseq. cbn [with_conn cn last_recv recv_seq]. rewrite release_strict. intros Hl Hs Hc.
+    apply H; auto. apply orb_false_iff in Eg as [Eg _]. apply orb_false_iff in Eg as [Eg _]. exact Eg.
 Qed.
 
 Lemma step_inv_rseq fixed fixk s e : inv_rseq s -> inv_rseq (step_g fixed fixk (begin_step s) e).
@@ -107,8 +132,8 @@ Proof.
   unfold inv_rseq in *. rewrite A, B, C. exact H1.
 Qed.
 
-Lemma recv_seq_reset_all_runs fixed fixk server l :
-  let s := run_g fixed fixk (init server) l in
+Lemma recv_seq_reset_all_runs fixed fixk server g l :
+  let s := run_g fixed fixk (init_gated server g) l in
   last_recv s = 21 -> strict (cn s) = true -> closed (cn s) = false -> recv_seq s = 0.
 Proof. apply run_inv_rseq. intros H. simpl in H. discriminate. Qed.
 
@@ -261,7 +286,7 @@ Record inv_clear (s : st) : Prop := {
               Forall allowed_clear (clear_acc s) /\ (exists r, clear_acc s = 20 :: r)
 }.
 
-Lemma inv_clear_init server : inv_clear (init server).
+Lemma inv_clear_init server g : inv_clear (init_gated server g).
 Proof.
   split; simpl.
   - intros _. auto.
@@ -339,7 +364,7 @@ Proof. intros n c H. rewrite run_tasks_closed_id; assumption. Qed.
 
 Lemma inv_clear_step fixed fixk s e : inv_clear s -> inv_clear (step_g fixed fixk s e).
 Proof.
-  intros I. destruct e as [|t cls|]; cbn [step_g].
+  intros I. destruct e as [|t cls| |v]; [cbn [step_g] | cbn [step_g] | cbn [step_g] | ].
   - destruct (closed (cn s)) eqn:Ec; [exact I|].
     destruct I as [Isid Ipre Istr]. split; cbn.
     + exact Isid.
@@ -358,6 +383,13 @@ Proof.
     + destruct (Ipre eq_refl eq_refl) as (Pa & Pe & Pp & Pq & Pb).
       rewrite run_tasks_nopending by exact Pp.
       split; cbn [with_conn cn recv_seq clear_acc]; [exact Isid | rewrite Ere, Ec; exact Ipre | rewrite Ec; exact Istr].
+  - rewrite step_release.
+    destruct (closed (cn s) || negb (waiting (cn s)) || (auth (cn s) =? 0)) eqn:Eg; [exact I|].
+    apply orb_false_iff in Eg as [Eg Ea]. apply orb_false_iff in Eg as [Ec _].
+    destruct I as [Isid Ipre Istr]. split; cbn [with_conn cn recv_seq clear_acc].
+    + unfold pre_sid in *. rewrite release_sid, release_next_recv, release_recv_enc. exact Isid.
+    + rewrite release_recv_enc. intros Hr _. destruct (Ipre Hr Ec) as (Pa & _). rewrite Pa in Ea. discriminate Ea.
+    + rewrite release_strict. intros Hs _. apply Istr; assumption.
 Qed.
 
 Lemma inv_clear_begin s : inv_clear s -> inv_clear (begin_step s).
@@ -378,13 +410,13 @@ Qed.
 (* In every run: if strict KEX was negotiated and the connection is still up, the packets accepted while
    receiving in clear were the KEXINIT first and then only exchange-specific messages and NEWKEYS; and as
    long as the connection receives in clear their number equals the receive sequence number. *)
-Lemma strict_initial_all_runs fixed fixk server l :
-  let s := run_g fixed fixk (init server) l in
+Lemma strict_initial_all_runs fixed fixk server g l :
+  let s := run_g fixed fixk (init_gated server g) l in
   closed (cn s) = false ->
   (strict (cn s) = true -> Forall allowed_clear (clear_acc s) /\ exists r, clear_acc s = 20 :: r) /\
   (recv_enc (cn s) = false -> recv_seq s = Z.of_nat (List.length (clear_acc s))).
 Proof.
-  cbv zeta. intros Hc. destruct (run_inv_clear fixed fixk l _ (inv_clear_init server)) as [A B C]. split.
+  cbv zeta. intros Hc. destruct (run_inv_clear fixed fixk l _ (inv_clear_init server g)) as [A B C]. split.
   - intros Hs. apply C; assumption.
   - intros Hr. destruct (B Hr Hc) as (_ & _ & _ & Q & _). exact Q.
 Qed.
@@ -459,13 +491,16 @@ Qed.
 Lemma step_unsolicited_fixed fixk s e :
   unsolicited (cn s) = false -> unsolicited (cn (step_g true fixk s e)) = false.
 Proof.
-  intros H. destruct e as [|t cls|]; cbn [step_g].
+  intros H. destruct e as [|t cls| |v]; [cbn [step_g] | cbn [step_g] | cbn [step_g] | ].
   - destruct (closed (cn s)); [exact H|]. cbn. exact H.
   - unfold recv_g. destruct (closed (cn s)); [exact H|].
     pose proof (dispatch_unsolicited_fixed fixk (cn s) (recv_seq s) t cls H) as H1.
     destruct (closed (dispatch_g true fixk (cn s) (recv_seq s) t cls)); [exact H1|].
     unfold finish_recv. destruct (79 <? t); crush_ifs; cbn; exact H1.
   - cbn [with_conn cn]. rewrite run_tasks_unsolicited. exact H.
+  - rewrite step_release.
+    destruct (closed (cn s) || negb (waiting (cn s)) || (auth (cn s) =? 0)); [exact H|].
+    cbn [with_conn cn]. rewrite release_unsolicited. exact H.
 Qed.
 
 Lemma success_outstanding_fixed_all_runs fixk : forall l s,
@@ -494,10 +529,11 @@ Definition post_inv (u : Z) (s : st) : Prop := closed (cn s) = true \/ post_ok u
 
 Lemma step_post_inv fixed fixk u s e : post_inv u s -> post_inv u (step_g fixed fixk s e).
 Proof.
-  intros [Hc|Hp]; destruct e as [|t cls|]; cbn [step_g].
+  intros [Hc|Hp]; destruct e as [|t cls| |v]; [cbn [step_g] | cbn [step_g] | cbn [step_g] | | cbn [step_g] | cbn [step_g] | cbn [step_g] | ].
   - rewrite Hc. left. exact Hc.
   - unfold recv_g. rewrite Hc. left. exact Hc.
   - left. cbn [with_conn cn]. rewrite run_tasks_closed_id; exact Hc.
+  - rewrite step_release. rewrite Hc. left. exact Hc.
   - destruct (closed (cn s)) eqn:Ec; [left; exact Ec|]. right. destruct Hp as (H1 & H2 & H3 & H4 & H5).
     unfold post_ok. cbn. auto.
   - unfold recv_g. destruct (closed (cn s)) eqn:Ec; [left; exact Ec|].
@@ -508,6 +544,8 @@ Proof.
         destruct D as (H1 & H2 & H3 & H4 & H5); unfold post_ok; cbn; auto.
   - right. cbn [with_conn cn]. destruct Hp as (H1 & H2 & H3 & H4 & H5). rewrite run_tasks_nopending by exact H3.
     unfold post_ok. auto.
+  - rewrite step_release. destruct Hp as (H1 & H2 & H3 & H4 & H5). rewrite H4. cbn [Z.eqb].
+    rewrite orb_true_r. right. unfold post_ok. auto.
 Qed.
 
 Lemma run_post_inv fixed fixk u : forall l s, post_inv u s -> post_inv u (run_g fixed fixk s l).
@@ -592,3 +630,39 @@ Lemma kbd_failed_then_right_answer fixed fixk :
   let s' := run_g fixed fixk s [EvRecv 61 0; EvSettle] in
   closed (cn s') = true /\ auth_complete (cn s') = false /\ authed (cn s') = 0.
 Proof. destruct fixed, fixk; vm_compute; repeat split; reflexivity. Qed.
+
+(* ---- the skip transitions of auth.py (try_next_auth(next_method=True)) ---------------------------------------- *)
+(* every path through try_next_auth lowers the request-outstanding flag - also the skips that happen AFTER the
+   skipped method had sent its request *)
+Lemma try_next_auth_clears c nm : req_issued (try_next_auth c nm) = false /\ waiting (try_next_auth c nm) = false.
+Proof. unfold try_next_auth, abort. cbv zeta. crush_ifs; cbn; auto. Qed.
+
+Lemma skip_transitions_clear c :
+  req_issued (run_task c (TClientKbdResp 1)) = false /\      (* keyboard-interactive prompt cancelled *)
+  req_issued (run_task c TChangePw) = false /\               (* password change not supported *)
+  req_issued (release_conn c 0) = false.                     (* credential callback has nothing to offer *)
+Proof.
+  unfold run_task, release_conn. cbn [Z.eqb].
+  repeat split; apply try_next_auth_clears.
+Qed.
+
+(* with the flag down a USERAUTH_SUCCESS ends the connection, in EVERY state *)
+Lemma success_needs_flag fixk c seq cls :
+  req_issued c = false -> closed (dispatch_g true fixk c seq 52 cls) = true.
+Proof.
+  intros Hr. unfold dispatch_g, on_connmsg_g, on_userauth_success_g, is_deleg. rewrite Hr.
+  change (negb true || false) with false. rewrite !andb_false_r.
+  crush_ifs; try reflexivity; try (cbn in *; discriminate).
+Qed.
+
+(* the gated scripted session: keyboard-interactive request sent, challenge arrives, the user cancels, the password
+   callback is pending - a USERAUTH_SUCCESS in that window ends the connection *)
+Definition between_methods : list event :=
+  [EvVersion; EvRecv 20 1; EvSettle; EvRecv 31 0; EvSettle; EvRecv 21 0; EvSettle; EvRecv 6 0; EvSettle;
+   EvRecv 51 4; EvSettle; EvRelease 1; EvRecv 60 1; EvSettle].
+
+Lemma between_methods_success fixk :
+  let s := run_g true fixk (init_gated false true) between_methods in
+  closed (cn s) = false /\ auth (cn s) = 2 /\ waiting (cn s) = true /\ req_issued (cn s) = false /\
+  closed (cn (run_g true fixk s [EvRecv 52 0; EvSettle])) = true.
+Proof. destruct fixk; vm_compute; repeat split; reflexivity. Qed.
